@@ -250,7 +250,8 @@ func (s *Sched) deadlock(cur *Goroutine, exiting bool) {
 		s.p.deadlocked(msg)
 		return
 	}
-	// a non-main goroutine detected it: wake main with a pending abort
+	// a non-main goroutine detected it: record it, then wake main with a pending abort
+	s.p.violation(nil, "deadlock", "main goroutine blocked forever", msg, nil)
 	s.p.pendingAbort = &pathAbort{"deadlock", msg}
 	m := s.gs[0]
 	s.cur = m
